@@ -302,7 +302,11 @@ CLAIMED = {
     ),
     "C05": (
         "Coq proof (array = list of its elements for ANY element decoder and any number of elements, by induction; the index a packet is filed under is carried in its frame, by case analysis of the header model; value ranges of the wire decoders by exhaustive PrimFloat sweeps lifted by lemma) + translator shape check of every array-capable parser + decoder oracle over regex-generated payloads of every code",
-        "6 theorems in coq/props/C05.v about coq/model/M_Payload.v (+ M_Codecs, M_Header): decode_array f n (concat es) = map f es for "
+        "9 theorems in coq/props/C05.v. Three about decoders modelled in full (coq/model/M_ModeCmd.v: parser_2349 zone mode, parser_000a zone "
+        "configuration, also parser_1f41 / parser_2e04 / parser_313f, tied to the real decoder on ~1250 (thorough 4500) W payloads assembled "
+        "from valid, sentinel and invalid fields -- verdict and every decoded value): whatever a 2349 / 000A payload of hex digits decodes "
+        "to, its temperatures are within -273.15..327.67, and the decoded zone mode does not depend on the index byte. Six about "
+        "coq/model/M_Payload.v (+ M_Codecs, M_Header): decode_array f n (concat es) = map f es for "
         "every element decoder f, element length n > 0 and list es of elements; the k-th element reports the first byte of the k-th "
         "element; every regenerated element length is positive; pkt_idx returns payload[:2], payload[4:6] or one of the fixed ids a "
         "000C role / the DHW schedule stands for; every temperature a 16-bit word decodes to is within -273.15..327.67 and every ratio a "
